@@ -140,6 +140,10 @@ def make(kind, norb, nelec, rng, orthonormal=False, ci_scale=0.3, n_batch=1, eps
             auf = (tuple(1 if i < na else 0 for i in range(norb)),
                    tuple(1 if i < nb else 0 for i in range(norb)))
             dets = [auf] + [d for d in dets if d != auf]
+        elif ms_ref == "inverted":  # anti-aufbau: the highest orbitals are occupied, every other determinant is reached by downward moves
+            inv = (tuple(1 if i >= norb - na else 0 for i in range(norb)),
+                   tuple(1 if i >= norb - nb else 0 for i in range(norb)))
+            dets = [inv] + [d for d in dets if d != inv]
         elif ms_ref == "closed":  # same occupation for both spins (needs na == nb)
             occ = tuple(sorted(rng.choice(norb, size=na, replace=False).tolist()))
             d0 = tuple(1 if i in occ else 0 for i in range(norb))
